@@ -1,7 +1,8 @@
 /* Proof unit for C09 (intrusive linked list): the real include/aws/common/linked_list.inl (through linked_list.h)
  * run on the closed node universe of contracts/linked_list.h.  Every harness: arbitrary universe, the operation's
  * precondition, the real call, then the whole universe is compared with the reference result (exact links, frame,
- * mirror invariant).  All loops range over the LL_N universe nodes (constant), so unwinding LL_N+1 is complete. */
+ * mirror invariant).  All loops range over the LL_N universe nodes (constant), so unwinding LL_N+1 is complete.
+ * r_p0 / r_p1 (contracts/linked_list.h) record the operation's arguments (node / list indices) for the native replay. */
 #include "contracts/linked_list.h"
 
 void aws_fatal_assert(const char *cond_str, const char *file, int line) {
@@ -18,6 +19,7 @@ static size_t any_client_node(void) { size_t i = any_node(); __CPROVER_assume(i 
 void h_init(void) {
     ll_setup();
     size_t l = any_list();
+    r_p0 = l;
     aws_linked_list_init(&ll_list[l]);
     ll_ex_nx[LL_HEAD(l)] = LL_TAIL(l); ll_ex_pv[LL_HEAD(l)] = LL_NONE;
     ll_ex_pv[LL_TAIL(l)] = LL_HEAD(l); ll_ex_nx[LL_TAIL(l)] = LL_NONE;
@@ -33,6 +35,7 @@ void h_insert_after(void) {
     size_t a = any_node(), t = any_node();
     __CPROVER_assume(a != t && ll_nx[a] != LL_NONE); /* aws_linked_list_node_next_is_valid(after) */
     __CPROVER_assume(ll_pre_inv(t) && ll_detached(t));
+    r_p0 = a; r_p1 = t;
     aws_linked_list_insert_after(ll_u(a), ll_u(t));
     ll_ref_insert_between(a, t, ll_nx[a]);
     ll_check_post();
@@ -45,6 +48,7 @@ void h_insert_before(void) {
     size_t b = any_node(), t = any_node();
     __CPROVER_assume(b != t && ll_pv[b] != LL_NONE); /* aws_linked_list_node_prev_is_valid(before) */
     __CPROVER_assume(ll_pre_inv(t) && ll_detached(t));
+    r_p0 = b; r_p1 = t;
     aws_linked_list_insert_before(ll_u(b), ll_u(t));
     ll_ref_insert_between(ll_pv[b], t, b);
     ll_check_post();
@@ -57,6 +61,7 @@ void h_remove(void) {
     size_t x = any_node();
     __CPROVER_assume(ll_nx[x] != LL_NONE && ll_pv[x] != LL_NONE);
     __CPROVER_assume(ll_pre_inv(LL_NONE));
+    r_p0 = x;
     aws_linked_list_remove(ll_u(x));
     ll_ref_remove(x);
     ll_check_post();
@@ -73,6 +78,7 @@ void h_swap_nodes(void) {
     __CPROVER_assume(ll_nx[a] != LL_NONE && ll_pv[a] != LL_NONE && ll_nx[b] != LL_NONE && ll_pv[b] != LL_NONE);
     __CPROVER_assume(ll_pre_inv(LL_NONE));
     size_t pa = ll_pv[a], na = ll_nx[a], pb = ll_pv[b], nb = ll_nx[b];
+    r_p0 = a; r_p1 = b;
     aws_linked_list_swap_nodes(ll_u(a), ll_u(b));
     /* reference: a and b exchange their positions in the sequence(s) */
     if (a == b) {
@@ -98,6 +104,7 @@ void h_push_back(void) {
     ll_setup();
     size_t l = any_list(), t = any_client_node();
     __CPROVER_assume(ll_list_ok(l) && ll_pre_inv(t) && ll_detached(t));
+    r_p0 = l; r_p1 = t;
     aws_linked_list_push_back(&ll_list[l], ll_u(t));
     ll_ref_insert_between(ll_pv[LL_TAIL(l)], t, LL_TAIL(l));
     ll_check_post();
@@ -109,6 +116,7 @@ void h_push_front(void) {
     ll_setup();
     size_t l = any_list(), t = any_client_node();
     __CPROVER_assume(ll_list_ok(l) && ll_pre_inv(t) && ll_detached(t));
+    r_p0 = l; r_p1 = t;
     aws_linked_list_push_front(&ll_list[l], ll_u(t));
     ll_ref_insert_between(LL_HEAD(l), t, ll_nx[LL_HEAD(l)]);
     ll_check_post();
@@ -123,6 +131,7 @@ void h_pop_back(void) {
     __CPROVER_assume(ll_nx[LL_HEAD(l)] != LL_TAIL(l)); /* !aws_linked_list_empty(list) */
     size_t x = ll_pv[LL_TAIL(l)];
     __CPROVER_assume(ll_pv[x] != LL_NONE); /* the back element is reachable from head, so it has a predecessor */
+    r_p0 = l;
     struct aws_linked_list_node *r = aws_linked_list_pop_back(&ll_list[l]);
     __CPROVER_assert(r == ll_u(x), "pop_back returns the old last element");
     ll_ref_remove(x);
@@ -138,6 +147,7 @@ void h_pop_front(void) {
     __CPROVER_assume(ll_nx[LL_HEAD(l)] != LL_TAIL(l));
     size_t x = ll_nx[LL_HEAD(l)];
     __CPROVER_assume(ll_nx[x] != LL_NONE); /* the front element reaches the tail, so it has a successor */
+    r_p0 = l;
     struct aws_linked_list_node *r = aws_linked_list_pop_front(&ll_list[l]);
     __CPROVER_assert(r == ll_u(x), "pop_front returns the old first element");
     ll_ref_remove(x);
@@ -153,6 +163,7 @@ void h_swap_contents(void) {
     __CPROVER_assume(a != b && ll_list_ok(a) && ll_list_ok(b) && ll_pre_inv(LL_NONE));
     size_t af = ll_nx[LL_HEAD(a)], al = ll_pv[LL_TAIL(a)], bf = ll_nx[LL_HEAD(b)], bl = ll_pv[LL_TAIL(b)];
     bool a_empty = af == LL_TAIL(a), b_empty = bf == LL_TAIL(b);
+    r_p0 = a; r_p1 = b;
     aws_linked_list_swap_contents(&ll_list[a], &ll_list[b]);
     if (b_empty) ll_ref_make_empty(a);
     else { ll_ex_nx[LL_HEAD(a)] = bf; ll_ex_pv[bf] = LL_HEAD(a); ll_ex_pv[LL_TAIL(a)] = bl; ll_ex_nx[bl] = LL_TAIL(a); }
@@ -171,6 +182,7 @@ void h_move_all_back(void) {
     size_t d = any_list(), s = any_list();
     __CPROVER_assume(d != s && ll_list_ok(d) && ll_list_ok(s) && ll_pre_inv(LL_NONE));
     size_t sf = ll_nx[LL_HEAD(s)], sl = ll_pv[LL_TAIL(s)], dl = ll_pv[LL_TAIL(d)];
+    r_p0 = d; r_p1 = s;
     aws_linked_list_move_all_back(&ll_list[d], &ll_list[s]);
     if (sf != LL_TAIL(s)) {
         ll_ex_nx[dl] = sf; ll_ex_pv[sf] = dl; ll_ex_pv[LL_TAIL(d)] = sl; ll_ex_nx[sl] = LL_TAIL(d);
@@ -187,6 +199,7 @@ void h_move_all_front(void) {
     size_t d = any_list(), s = any_list();
     __CPROVER_assume(d != s && ll_list_ok(d) && ll_list_ok(s) && ll_pre_inv(LL_NONE));
     size_t sf = ll_nx[LL_HEAD(s)], sl = ll_pv[LL_TAIL(s)], df = ll_nx[LL_HEAD(d)];
+    r_p0 = d; r_p1 = s;
     aws_linked_list_move_all_front(&ll_list[d], &ll_list[s]);
     if (sf != LL_TAIL(s)) {
         ll_ex_nx[LL_HEAD(d)] = sf; ll_ex_pv[sf] = LL_HEAD(d); ll_ex_nx[sl] = df; ll_ex_pv[df] = sl;
@@ -203,6 +216,7 @@ void h_observers(void) {
     size_t l = any_list(), x = any_node();
     __CPROVER_assume(ll_list_ok(l) && ll_pre_inv(LL_NONE));
     const struct aws_linked_list *list = &ll_list[l];
+    r_p0 = l; r_p1 = x;
     __CPROVER_assert(aws_linked_list_is_valid(list), "is_valid on a valid list");
     __CPROVER_assert(aws_linked_list_empty(list) == (ll_nx[LL_HEAD(l)] == LL_TAIL(l)), "empty <=> head.next == tail");
     __CPROVER_assert(aws_linked_list_empty(list) == (ll_pv[LL_TAIL(l)] == LL_HEAD(l)), "empty <=> tail.prev == head (mirror)");
@@ -234,6 +248,7 @@ void h_observers(void) {
 void h_node_reset(void) {
     ll_setup();
     size_t x = any_node();
+    r_p0 = x;
     aws_linked_list_node_reset(ll_u(x));
     ll_ex_nx[x] = LL_NONE; ll_ex_pv[x] = LL_NONE;
     for (size_t i = 0; i < LL_N; ++i) {
